@@ -355,7 +355,7 @@ def run(tier):
     dom, fills = DOM, FILLS
     if tier != "quick":
         dom = [("n", [0, 1, 2, 3, 4]), ("m", [1, 2, 3]), ("kout", [2, 4]), ("t", [[1, 2], [-3, 2]]),
-               ("u", [[3, 1], [0, 1]]), ("gcount", [5, 1]), ("constants_mod::eps", [[1, 4], [-1, 2]]), ("p%x", [[1, 2], [-2, 1]]), ("p%k", [2, 1])]
+               ("u", [[3, 1], [0, 1]]), ("gcount", [5, 1]), ("constants_mod::eps", [[1, 4], [-1, 2]]), ("p%x", [[1, 2]]), ("p%k", [2])]
         fills = [1, 2, 3, 4]
     fam = sem.TransFamily("C07", dom=dom, fills=fills, live=LIVE, apps=apps)
 
